@@ -364,7 +364,7 @@ def run(ctx):
     g = Graph(res.records['EDGE'], res.records['INIT'])
     ad = SysAdapter(ctx.seed, do_solves=False)
     w = Walker(ctx, g, ad, 'replay.completeness')
-    ne = w.cover_edges()
+    ne = w.cover_edges(stutter=True)
     ctx.traces += ne
     ctx.stage('replay.completeness', initial_states=len(g.inits), graph_edges=g.n_edges, edges_replayed=ne, real_calls=w.steps)
     # the same machine once more with potentials that all carry an EXPLICIT sigma: a missing diameter is still a missing item
@@ -374,7 +374,7 @@ def run(ctx):
         for k in saved:
             VERS[k][1] = ['HardSphere', {'sigma': 1.0}]
         w = Walker(ctx, g, SysAdapter(ctx.seed, do_solves=False), 'replay.completeness.explicit_sigma')
-        ne2 = w.cover_edges()
+        ne2 = w.cover_edges(stutter=True)
         ctx.traces += ne2
         ctx.stage('replay.completeness.explicit_sigma', edges_replayed=ne2, real_calls=w.steps)
     finally:
